@@ -53,6 +53,7 @@ def walk_invariant(ctx, hts, history):
     root = getattr(trie, "_TrieDict__root", None) if trie is not None else None
     if root is None:
         ctx.count("invariant-root-absent")
+        ctx.count("invariant-walks:not-applicable")
         return
     ctx.count("invariant-walks")
     bad = []
@@ -150,7 +151,8 @@ def install(ctx):
         if cur is not None:
             walk_invariant(ctx, cur["t"], cur["h"])
 
-    pr.watch("ural.classes.trie_dict:TrieDict.set_and_prune_if_shorter", on_return=on_ret, want_args=False)
+    if not pr.watch("ural.classes.trie_dict:TrieDict.set_and_prune_if_shorter", on_return=on_ret, want_args=False):
+        ctx.count("invariant-walks:not-applicable")
     pr.watch("ural.classes.hostname_trie_set:tokenize_hostname", want_args=False)
     pr.watch("ural.classes.hostname_trie_set:HostnameTrieSet.match", want_args=False)
     pr.start()
